@@ -1,2 +1,171 @@
-(* C03 -- placeholder: statements are added with QueryProofs *)
-From MsiModel Require Import Base Query.
+(* C03 -- Insert, update, delete and select follow the relational model.
+   Value-level refinement on every state satisfying the package invariant (hence on every reachable state): after a
+   successful INSERT the table is a Permutation of the old rows plus the (normalised) new ones, strictly sorted by key;
+   after DELETE it is the old list filtered by the negated condition, order kept; after UPDATE it is map upd_row of the
+   old list (exactly the matching rows, exactly the named columns, last assignment wins), same order -- or its
+   key-sorted permutation when a key column is assigned; in each case every other table, the catalog, streams and the
+   summary are untouched.  SELECT = filter then project in the requested order; every yielded row has one cell per
+   result column (Rows::len() = rows yielded is checked on the implementation).
+   Statements only; every proof is `exact <lemma>` from theories/. *)
+From Coq Require Import Sorting.Sorted Permutation.
+From MsiModel Require Import Base Sexp Value Expr Category Column CodePage Pool Table Container StreamName Propset Summary Query Package PoolProofs TableProofs QueryProofs DbInv CatalogProofs PropsetCodecProofs PackageProofs PkgInv UpdateRefine PkgInv2 InsertRefine DeleteRefine DmlPkgProofs DropTableProofs MiscOpsProofs ReopenProofs CreateTableLemmas CreateTableProofs StreamProofs Reach KnownFindings SelectTotal.
+From MsiGen Require Import GenConsts GenCatalog GenStreamName.
+Open Scope N_scope.
+
+Theorem C03_insert :
+  forall (prof : profile) (k : pkg) (tn : str) (t : table) (rows : list (list value)) (k' : pkg),
+         PInv2 prof k ->
+         user_table_name tn ->
+         find_table (k_tabs k) tn = Some t ->
+         Forall (Forall value_storable) rows ->
+         pkg_insert prof k tn rows = (k', Ok tt) ->
+         PInv2 prof k' /\
+         others_untouched prof k k' tn /\
+         (exists old new : list (list value),
+            tvals prof (the_db k) t = Ok old /\
+            tvals prof (the_db k') t = Ok new /\
+            Permutation new (old ++ map (map normalize_value) rows) /\ sorted_by_key t new /\ rows_valid t new).
+Proof. exact pkg_insert_ok. Qed.
+
+Theorem C03_delete :
+  forall (prof : profile) (k : pkg) (tn : str) (t : table) (cond : option ast) (k' : pkg),
+         PInv2 prof k ->
+         user_table_name tn ->
+         find_table (k_tabs k) tn = Some t ->
+         pkg_delete prof k tn cond = (k', Ok tt) ->
+         PInv2 prof k' /\
+         others_untouched prof k k' tn /\
+         (exists old : list (list value),
+            tvals prof (the_db k) t = Ok old /\
+            tvals prof (the_db k') t = Ok (filter (fun r : list value => negb (holds_v t cond r)) old)).
+Proof. exact pkg_delete_ok. Qed.
+
+Theorem C03_update :
+  forall (prof : profile) (k : pkg) (tn : str) (t : table) (ups : list (str * value)) 
+           (cond : option ast) (k' : pkg),
+         PInv2 prof k ->
+         user_table_name tn ->
+         find_table (k_tabs k) tn = Some t ->
+         ups_wf ups ->
+         pkg_update prof k tn ups cond = (k', Ok tt) ->
+         PInv2 prof k' /\
+         others_untouched prof k k' tn /\
+         (exists old new : list (list value),
+            tvals prof (the_db k) t = Ok old /\
+            tvals prof (the_db k') t = Ok new /\
+            (if touches_key t ups
+             then Permutation new (map (upd_row t ups cond) old)
+             else new = map (upd_row t ups cond) old) /\ sorted_by_key t new /\ rows_valid t new).
+Proof. exact pkg_update_ok. Qed.
+
+(* the same at the level of the table store, with the frame on container entries *)
+Theorem C03_insert_store :
+  forall (prof : profile) (d : db) (tn : str) (t : table) (rows : list (list value)) 
+           (c' : container) (p' : pool),
+         Inv' d ->
+         Forall (Forall value_storable) rows ->
+         In (tn, t) (d_tabs d) ->
+         find_table (d_tabs d) tn = Some t ->
+         exec_insert prof (d_cont d) (d_pool d) (d_tabs d) tn rows = Ok (c', p') ->
+         let d' := {| d_cont := c'; d_pool := p'; d_tabs := d_tabs d |} in
+         Inv' d' /\
+         (exists old new : list (list value),
+            tvals prof d t = Ok old /\
+            tvals prof d' t = Ok new /\
+            Permutation new (old ++ map (map normalize_value) rows) /\
+            sorted_by_key t new /\ (rows_valid t old -> rows_valid t new)) /\
+         (forall (n' : str) (t' : table), In (n', t') (d_tabs d) -> n' <> tn -> tvals prof d' t' = tvals prof d t') /\
+         (forall s : str,
+          name_eqb s (stream_name_of t) = false -> ct_find (ct_entries c') s = ct_find (ct_entries (d_cont d)) s) /\
+         ct_clsid c' = ct_clsid (d_cont d).
+Proof. exact insert_refines. Qed.
+
+Theorem C03_delete_store :
+  forall (prof : profile) (d : db) (tn : str) (t : table) (cond : option ast) (c' : container) (p' : pool),
+         Inv d ->
+         In (tn, t) (d_tabs d) ->
+         find_table (d_tabs d) tn = Some t ->
+         exec_delete prof (d_cont d) (d_pool d) (d_tabs d) tn cond = Ok (c', p') ->
+         let d' := {| d_cont := c'; d_pool := p'; d_tabs := d_tabs d |} in
+         Inv d' /\
+         (exists old : list (list value),
+            tvals prof d t = Ok old /\
+            tvals prof d' t = Ok (filter (fun r : list value => negb (holds_v t cond r)) old)) /\
+         (forall (n' : str) (t' : table), In (n', t') (d_tabs d) -> n' <> tn -> tvals prof d' t' = tvals prof d t') /\
+         (forall s : str,
+          name_eqb s (stream_name_of t) = false -> ct_find (ct_entries c') s = ct_find (ct_entries (d_cont d)) s) /\
+         ct_clsid c' = ct_clsid (d_cont d).
+Proof. exact delete_refines. Qed.
+
+Theorem C03_update_store :
+  forall (prof : profile) (d : db) (tn : str) (t : table) (ups : list (str * value)) 
+           (cond : option ast) (c' : container) (p' : pool),
+         UpdateRefine.Inv' d ->
+         ups_wf ups ->
+         In (tn, t) (d_tabs d) ->
+         find_table (d_tabs d) tn = Some t ->
+         exec_update prof (d_cont d) (d_pool d) (d_tabs d) tn ups cond = Ok (c', p') ->
+         let d' := {| d_cont := c'; d_pool := p'; d_tabs := d_tabs d |} in
+         UpdateRefine.Inv' d' /\
+         (exists old new : list (list value),
+            tvals prof d t = Ok old /\
+            tvals prof d' t = Ok new /\
+            (if touches_key t ups
+             then Permutation new (map (upd_row t ups cond) old) /\ sorted_by_key t new
+             else new = map (upd_row t ups cond) old) /\ (rows_valid t old -> rows_valid t new)) /\
+         (forall (n' : str) (t' : table), In (n', t') (d_tabs d) -> n' <> tn -> tvals prof d' t' = tvals prof d t') /\
+         (forall s : str,
+          name_eqb s (stream_name_of t) = false -> ct_find (ct_entries c') s = ct_find (ct_entries (d_cont d)) s) /\
+         ct_clsid c' = ct_clsid (d_cont d).
+Proof. exact update_refines. Qed.
+
+(* select = filter by the condition, then project, order preserved *)
+Theorem C03_select :
+  forall (prof : profile) (c : container) (p : pool) (ts : tables) (tn : str) (names : list str)
+           (cond : option ast) (t' : table) (out : list (list vref)) (all : list (list value)) 
+           (t : table),
+         find_table ts tn = Some t ->
+         rows_all <- load_rows c t;; rmapM (row_to_values prof p) rows_all = Ok all ->
+         exec_select prof c p ts (Sel (JTable tn) names cond) = Ok (t', out) ->
+         exists idx : list nat,
+           indices_of t names = Some idx /\
+           rmapM (row_to_values prof p) out =
+           Ok
+             (map (fun r : list value => match idx with
+                                         | [] => r
+                                         | _ :: _ => project idx r
+                                         end) (filter (holds_v t cond) all)) /\
+           map c_name (t_cols t') = match names with
+                                    | [] => map c_name (t_cols t)
+                                    | _ :: _ => names
+                                    end.
+Proof. exact select_table_spec. Qed.
+
+Theorem C03_filter :
+  forall (prof : profile) (p : pool) (t : table) (cond : option ast) (rows : list (list vref))
+           (vals : list (list value)) (out : list (list vref)),
+         rmapM (row_to_values prof p) rows = Ok vals ->
+         filter_rows prof p t cond rows = Ok out ->
+         rmapM (row_to_values prof p) out = Ok (filter (holds_v t cond) vals).
+Proof. exact filter_rows_spec. Qed.
+
+Theorem C03_row_shape :
+  forall (prof : profile) (c : container) (p : pool) (ts : tables) (s : sel) (t : table)
+           (rows : list (list vref)), bytes_ok c -> exec_select prof c p ts s = Ok (t, rows) -> rows_shaped t rows.
+Proof. exact select_shape. Qed.
+
+(* ascending order is strict: keys are unique *)
+Theorem C03_keys_sorted_unique :
+  forall m : keyed, keyed_sorted m -> NoDup (map fst m).
+Proof. exact sorted_nodup. Qed.
+
+Print Assumptions C03_insert.
+Print Assumptions C03_delete.
+Print Assumptions C03_update.
+Print Assumptions C03_insert_store.
+Print Assumptions C03_delete_store.
+Print Assumptions C03_update_store.
+Print Assumptions C03_select.
+Print Assumptions C03_filter.
+Print Assumptions C03_row_shape.
+Print Assumptions C03_keys_sorted_unique.
